@@ -111,7 +111,14 @@ PROPS["C15"] = dict(
          "fuzz seeds, the msg_test.go vectors, ~330 directed quirk cases and ~500 wrong-type cases per field; 547 generated messages over "
          "the full field set (one field at a time through all its choices, then random points of the product), each encoded, decoded, "
          "re-encoded and re-encoded again; a malformed stream of truncations at every offset, 1500 mutations, nesting to depth 5000, "
-         "huge declared lengths and trailing bytes; the nodes file. A case is distinct by its input text.",
+         "huge declared lengths and trailing bytes; the nodes file; forms (codec_hold.go): every compact list, NodeAddr, ID, Error and the "
+         "BEP 33 bloom filter handed to bencode.Marshal by value, by pointer, pointer to pointer, as struct field by value / by pointer / "
+         "interface{}, inside []interface{}, map[string]interface{}, map[string]T, map[string]*T and []T: the piece inside the container "
+         "(mbf lines) is the value's own MarshalBencode, the container decodes back to the value and re-encodes to the identical bytes, "
+         "krpc.Msg carries the same piece, a decoded value does not alias the input buffer; held results: the slices returned by every "
+         "exported MarshalBinary / MarshalBencode are kept while further values and messages are encoded (same goroutine; 6 goroutines "
+         "holding everything across a barrier) and only then printed (mb / mbc lines), compared with the copy taken at return and "
+         "concatenated into hand-assembled responses that must equal bencode.Marshal of the krpc.Msg. A case is distinct by its input text.",
     trusted=["anacrolix/torrent/bencode internals (modelled byte-level incl. its quirks, differentially tested on every run)",
              "net.IP.To4/To16; 64-bit int", "tools/srcschema (struct tags of krpc/msg.go -> gen/KrpcSchema.v, pinned field by field)"],
     assumptions=["inputs of at most 2^27-1 bytes for the fixpoint clause only (the decoder's own string limit; every UDP datagram is far below)"],
@@ -241,6 +248,22 @@ for _p in ("C02", "C03", "C04"):
     PROPS[_p]["engines"] = PROPS[_p]["engines"] + ["lookups"]
     PROPS[_p]["rule"] += _CLOSEST_RULE
     PROPS[_p]["trusted"] = PROPS[_p]["trusted"] + _CLOSEST_TRUSTED
+
+# lookups engine, sixth case family (harness/cmd/h/lookups_r6.go)
+_R6_ERR = (" ; lookups engine, error replies (lookups_r6.go): nodes answering get / get_peers / find_node with KRPC errors 201..205, 301, 0, 999, -1, "
+           "string-form / empty-message / malformed e values, as starting and as learned nodes, for Get (mutable, immutable absent), Put, Announce, "
+           "Bootstrap and traversal.Start; query datagrams per address counted whatever their method (C04 address-queried-twice:*)")
+_R6_FLIP = (" ; lookups engine, socket reporting every inbound source in the other byte form (4-byte <-> IPv4-mapped) than the one the query was sent to: "
+            "honest networks under Bootstrap (K 16) and traversal.Start (K 8) with lkexact, Announce, Get, Put; starting nodes handed over in either "
+            "form (oracle C02 answered-node-not-counted:source-in-other-byte-form:*)")
+for _p in ("C02", "C03", "C04"):
+    PROPS[_p]["rule"] += _R6_ERR + _R6_FLIP
+PROPS["C12"]["rule"] += (" ; genuine signed versions with sequence numbers at the ends of int64 (MinInt64, -(2^62+10), -1, 0, 2^62+10, MaxInt64): every pair "
+                         "stale-first and fresh-first, all at once in asc / desc / freshest-last / seeded order, busy consumer, Put's autoSeq, extreme seq argument")
+PROPS["C14"]["rule"] += (" ; lookups engine: an immutable item held by 2..8 nodes of one round whose replies are all in hand when Get takes the first copy; every Get / Put "
+                         "of the main runner: no goroutine inside traversal / getput frames 5 s after the call returned while the caller's context is alive and "
+                         "the server open (oracle goroutine-leak:<api>:after-return-caller-context-alive)" + _R6_FLIP)
+PROPS["C16"]["rule"] += _R6_FLIP
 
 # engine `api` (srv_api*.go, RunApi.v / ApiProofs.v): the exported API used from several goroutines at once
 API_TRUSTED = ["api engine: Go scheduler / sync.RWMutex; overlap is provoked (callers queued behind a packet handler parked in the OnQuery "
